@@ -57,8 +57,11 @@ def run(ctx):
     pids = cw.select_programs(ctx, sp, tier)
     # matryer out-of-package: two thirds with skip-ensure, otherwise the known ensure-line defect (N1) is the first
     # error of nearly every such case and hides everything else
-    def prefer(c, rng):
+    # generic interfaces in-package: always WITH the ensure line, whose type arguments are synthesised from the constraints
+    def prefer(c, rng, prog):
         cfg = c["cfg"]
+        if cfg["tmpl"] == "matryer" and prog["fam"] == "generic" and c["expect"]["inpkg"]:
+            return not c["expect"]["predkey"]["skipensure"]
         if cfg["tmpl"] == "matryer" and not c["expect"]["inpkg"]:
             return cfg["skipensure"] == (rng.random() < 0.67)
         return True
